@@ -271,6 +271,7 @@ type chunkReader struct {
 	drawn    int // bytes handed out
 	zeroRuns int
 	reads    int
+	errs     int // times err was handed to the reader
 }
 
 func (c *chunkReader) Read(p []byte) (int, error) {
@@ -280,6 +281,7 @@ func (c *chunkReader) Read(p []byte) (int, error) {
 		limit = len(c.data)
 	}
 	if c.pos >= limit {
+		c.errs++
 		return 0, c.err
 	}
 	n := limit - c.pos
